@@ -559,6 +559,8 @@ for _up in (True, False):
                      "... and a reduced offset determines its bin; with post.cyclic_bracket / cyclic_successor_never_clipped (and the periodic "
                      "weights' post.fraction) such targets therefore get identical indices and weights")]
 CONTRACTS = [wrapped_difference, enclosing_periodic, weights_periodic, interpolate_periodic, ndp_linear, ndp_nearest]
+import contracts.C14_wiring as _W          # dataset.py / dataarray.py / dataframe.py / geometry.py wiring above the kernels
+CONTRACTS = CONTRACTS + _W.CONTRACTS
 import contracts.C14_bounded as _B
 BOUNDED = [Bounded("angular_data_unit_vector_average", _B.angular_data,
                    "NdInterpolator._periodic_data_interpolator through interpolate_dataset_along_axis (complex exponentials are outside the executor's subset)"),
